@@ -11,7 +11,7 @@ RULE = ("pairs (A,B) of caps of every kind: B identical to A, B differing in exa
         "caching cannot make them the same object. Non-trivial = pair with equal strings but distinct objects, or pair differing in one field; distinct by (A,B).")
 LEVEL_TEXT = "Search over pairs of equal and nearly-equal capabilities in every wrapper class; oracle is string equality."
 ASSUMPTIONS = ["nodes are built without a storage broker and never used for I/O"]
-REQUIRED_CLASSES = ["equal-distinct-objects", "one-field-differs", "node:ImmutableFileNode", "node:LiteralFileNode", "node:MutableFileNode", "node:DirectoryNode"]
+REQUIRED_CLASSES = ["node:UnknownNode", "node:CiphertextFileNode", "equal-distinct-objects", "one-field-differs", "node:ImmutableFileNode", "node:LiteralFileNode", "node:MutableFileNode", "node:DirectoryNode"]
 BUDGET = {"quick": 600, "thorough": 3600}
 NODE_KINDS = ["CHK", "LIT", "SSK", "SSK-RO", "MDMF", "MDMF-RO", "DIR2", "DIR2-RO", "DIR2-CHK", "DIR2-LIT", "DIR2-MDMF", "DIR2-MDMF-RO"]
 
@@ -23,7 +23,7 @@ def plan(tier):
 
 def cases():
     return st.fixed_dictionaries({"p": C.cap_params(), "rel": st.sampled_from(["same", "same", "field", "kind", "other"]),
-                                  "field": st.sampled_from(["a", "b", "k", "n", "size", "lit"]), "q": C.cap_params()})
+                                  "field": st.sampled_from(["a", "b", "k", "n", "size", "lit"]), "q": C.cap_params(), "unknown": st.sampled_from([False, False, True])})
 
 
 def run_shard(spec, ctx):
@@ -90,4 +90,19 @@ def run_case(case, ctx):
         ctx.check(ua == sa and ub == sb, "node-uri", "node.get_uri() %r != cap %r" % (ua, sa))
         compare(ctx, na, nb, ua, ub, "nodes %s/%s" % (type(na).__name__, type(nb).__name__), classes)
         classes.append("node:" + type(na).__name__)
-    ctx.note(sig=(sa, sb), nontrivial=(sa == sb) or rel == "field", classes=classes, sample={"a": sa.decode(), "b": sb.decode(), "rel": rel})
+    if p["kind"] == "CHK-Verifier" and q["kind"] == "CHK-Verifier":
+        # the node class the NodeMaker hands out for an immutable verify cap
+        na, nb = _nm().create_from_cap(sa), _nm().create_from_cap(sb)
+        compare(ctx, na, nb, sa, sb, "nodes %s/%s" % (type(na).__name__, type(nb).__name__), classes)
+        classes.append("node:" + type(na).__name__)
+    if case.get("unknown"):
+        # capabilities of a kind this version does not know, and the node class that holds them
+        from allmydata import uri as _uri
+        xa = b"x-tahoe-future:" + sa[4:]
+        xb = xa if rel == "same" else b"x-tahoe-future:" + sb[4:] + (b"" if sa != sb else b"2")
+        ca, cb = _uri.from_string(xa), _uri.from_string(xb)
+        compare(ctx, ca, cb, xa, xb, "cap objects %s/%s" % (type(ca).__name__, type(cb).__name__), classes)
+        na, nb = _nm().create_from_cap(None, b"ro." + xa), _nm().create_from_cap(None, b"ro." + xb)
+        compare(ctx, na, nb, xa, xb, "nodes %s/%s" % (type(na).__name__, type(nb).__name__), classes)
+        classes.append("node:" + type(na).__name__)
+    ctx.note(sig=(sa, sb, bool(case.get("unknown"))), nontrivial=(sa == sb) or rel == "field", classes=classes, sample={"a": sa.decode(), "b": sb.decode(), "rel": rel})
